@@ -16,7 +16,7 @@ import (
 func c18DbStack(c *vk.Ctx) {
 	n := c.N(240, 8000)
 	type variant struct{ res, ses string }
-	variants := []variant{{"mem", ""}, {"fs", ""}, {"fs", "mem"}, {"mem", "fs"}}
+	variants := []variant{{"mem", ""}, {"fs", ""}, {"fs", "mem"}, {"mem", "fs"}, {"mem", "same"}, {"fs", "same"}}
 	for i := 0; i < n; i++ {
 		if !c.Mine(i) {
 			continue
@@ -81,6 +81,11 @@ func c18DbStack(c *vk.Ctx) {
 				break
 			}
 			gout, wout := g.Out, w.Out
+			if g.FinishErr != "" {
+				c.Violate("dbstack:finish-fails:"+v.res+"/"+v.ses, fmt.Sprintf("step %d input %s (%s resource store, sessions %q): Finish fails: %s", step, printable(hist[step]), v.res, v.ses, g.FinishErr), key,
+					map[string]interface{}{"app": a.Describe(), "config": cfg, "history": printableHist(hist[:step+1]), "variant": v})
+				break
+			}
 			if (g.ExecErr == "") != (w.ExecErr == "") || (g.FlushErr == "") != (w.FlushErr == "") || g.Cont != w.Cont || gout != wout {
 				comp := "result"
 				if gout != wout {
